@@ -103,6 +103,14 @@ pub open spec fn supported(u: TimeUnit) -> bool {
         let tn = T::unit_spec().nanos();
         assert(un == 1 || un == 1_000 || un == 1_000_000 || un == 1_000_000_000);
         assert(tn == 1 || tn == 1_000 || tn == 1_000_000 || tn == 1_000_000_000);
+        // x == q * (x / q) + x % q and 0 <= x % q < q for the three unit ratios
+        let x = this.0 as int;
+        vstd::arithmetic::div_mod::lemma_fundamental_div_mod(x, 1_000);
+        vstd::arithmetic::div_mod::lemma_mod_bound(x, 1_000);
+        vstd::arithmetic::div_mod::lemma_fundamental_div_mod(x, 1_000_000);
+        vstd::arithmetic::div_mod::lemma_mod_bound(x, 1_000_000);
+        vstd::arithmetic::div_mod::lemma_fundamental_div_mod(x, 1_000_000_000);
+        vstd::arithmetic::div_mod::lemma_mod_bound(x, 1_000_000_000);
     }
 //@spec
     requires
